@@ -40,6 +40,8 @@ def worker(args):
         mod.run(ctx)
     except core.Inconclusive as e:
         ctx.extra["inconclusive"] = str(e)
+    except core.FailFast as e:
+        ctx.extra["failfast"] = str(e)
     except Exception:  # noqa: BLE001 harness failure: loud, and never a silent pass
         traceback.print_exc()
         ctx.extra["harness_error"] = traceback.format_exc(limit=6)
@@ -94,6 +96,22 @@ def parent(args):
                "--shard", str(s), "--nshards", str(nshards), "--shard-out", out]
         procs.append((s, subprocess.Popen(cmd, stdout=log, stderr=subprocess.STDOUT, env=env, cwd=VERIF_DIR), out, log))
     results, reasons = [], []
+    if os.environ.get("VERIF_FAILFAST"):   # self-test only: one shard has seen a violation -> the others need not finish
+        while any(p.poll() is None for _s, p, _o, _l in procs) and time.time() - t0 < timeout:
+            hit = False
+            for _s, p, out, _l in procs:
+                if p.poll() is not None and os.path.exists(out):
+                    try:
+                        with open(out) as f:
+                            hit = hit or bool(json.load(f).get("violations"))
+                    except ValueError:
+                        pass
+            if hit:
+                for _s, p, _o, _l in procs:
+                    if p.poll() is None:
+                        p.kill()
+                break
+            time.sleep(0.5)
     for s, p, out, log in procs:
         left = max(5.0, timeout - (time.time() - t0))
         try:
